@@ -124,7 +124,8 @@ func (ls *laneSpec) exempt(l Term) Term {
 		ls.ev.guard("lanewhen", func() {
 			sc := ls.ev.evalAt(l)
 			// make all operand values available to the class expression
-			for opn, fld := range isaOperandField {
+			for _, opn := range sortedKeys(isaOperandField) {
+				fld := isaOperandField[opn]
 				if _, has := ls.e.Ops[opn]; !has {
 					continue
 				}
